@@ -55,6 +55,7 @@ func main() {
 	simosPk := flag.String("simos", "", "comma-separated package paths (relative) whose os.X calls are redirected to simos.X")
 	extra := flag.String("extra", "", "directory with extra files to add per package: <extra>/<relpkg>/*.go")
 	tags := flag.String("tags", "unit", "build tags")
+	mapto := flag.String("mapto", "", "root to use in overlay keys instead of -repo (sources are read from -repo, the build sees them at -mapto)")
 	flag.Parse()
 	if *out == "" || flag.NArg() == 0 {
 		fmt.Fprintln(os.Stderr, "usage: weaver -out DIR pkg...")
@@ -118,7 +119,11 @@ func main() {
 				fmt.Fprintln(os.Stderr, "weaver:", err)
 				os.Exit(2)
 			}
-			overlay[name] = dst
+			key := name
+			if *mapto != "" {
+				key = filepath.Join(*mapto, strings.TrimPrefix(name, filepath.Clean(*repo)))
+			}
+			overlay[key] = dst
 			for k, v := range fw.stats {
 				total[k] += v
 			}
@@ -127,7 +132,11 @@ func main() {
 			ents, _ := os.ReadDir(filepath.Join(*extra, rel))
 			for _, e := range ents {
 				if strings.HasSuffix(e.Name(), ".go") {
-					overlay[filepath.Join(*repo, rel, e.Name())] = filepath.Join(*extra, rel, e.Name())
+					root := *repo
+					if *mapto != "" {
+						root = *mapto
+					}
+					overlay[filepath.Join(root, rel, e.Name())] = filepath.Join(*extra, rel, e.Name())
 				}
 			}
 		}
